@@ -11,6 +11,7 @@ import Proofs.StreamDap4
 import Proofs.StreamClient
 import Proofs.StreamFuel
 import Proofs.StreamTree
+import Proofs.DapSrc
 namespace Pydap.C09
 open Pydap Pydap.Stream
 
@@ -323,5 +324,31 @@ theorem C09_dap4_reads_only (data : Bytes) :
 theorem C09_dap4_prefix_free (b p buf : Bytes) (h : stream2bytearray b = .ok buf) (hp : p <+: b) :
     stream2bytearray p = .ok buf ∨ stream2bytearray p = .error .eof :=
   stream2bytearray_prefix_any b p buf h hp
+
+/-! ## the tie by translation: the source text of the chunk-header decoding computes what `dechunkLoop` uses
+
+`Pydap.Gen.src_…` (PydapModel/Generated/DapSrc.lean) are regenerated from `handlers/dap.py` on every run by
+`harness/py2lean.py`; the model's loop reads `size = h % 16777216`, `ty = h / 16777216 % 256`, `chunkLast ty`. -/
+
+open MiniPy in
+/-- `stream2bytearray`: the two fields it computes from a header word are the model's `size` and `ty` -/
+theorem C09_source_header_fields (h : Nat) :
+    runItem [("chunk_header", .int h)] Gen.src_stream2bytearray_fields "chunk_size"
+      = .ok (.int ((h % 16777216 : Nat) : Int)) ∧
+    runItem [("chunk_header", .int h)] Gen.src_stream2bytearray_fields "chunk_type"
+      = .ok (.int ((h / 16777216 % 256 : Nat) : Int)) :=
+  src_stream2bytearray_fields_eq h
+
+open MiniPy in
+/-- `decode_chunktype` (whole body, little-endian host) applied to the field `stream2bytearray` passes it:
+    its first result is `chunkLast` -/
+theorem C09_source_chunk_last (h : Nat) :
+    runItem (chunktypeEnv true (h / 16777216 % 256)) Gen.src_decode_chunktype "@ret0"
+      = .ok (.bool (chunkLast (h / 16777216 % 256))) :=
+  src_decode_chunktype_last _ (by omega)
+
+open MiniPy in
+example : runItem (chunktypeEnv true (83886087 / 16777216 % 256)) Gen.src_decode_chunktype "@ret0"
+    = .ok (.bool true) := by decide
 
 end Pydap.C09
